@@ -72,10 +72,26 @@ def predefined_ctx():
     return Ctx([["load_predefined"]], units, classes, "predefined")
 
 
+_CTX_N = [0]
+
+
 def user_ctx(rng, length=14, **kw):
+    # every third context uses type names that agree in their first 40
+    # characters; every context declares the product of two base types
+    _CTX_N[0] += 1
+    kw.setdefault("long_names", _CTX_N[0] % 3 == 0)
     g = HistGen(rng, with_invalid=False, split_items=.4, **kw)
     steps = g.history(length)
     w = g.w
+    st = g.product_class()
+    if st is not None:
+        steps.append(st)
+    # ... and every second one a negative power of a base type WITHOUT the
+    # positive counterpart (X ** -2 but no X ** 2), or a cube without the square
+    if _CTX_N[0] % 2 == 0:
+        st = g.power_class(-2 if _CTX_N[0] % 4 == 0 else 3)
+        if st is not None:
+            steps.append(st)
     # targeted: two units of ONE derived type, each defined by a term with a
     # plain-int factor (the factor between them is int / int), and one more
     # term-defined unit
